@@ -55,13 +55,8 @@ pub fn run(config: Config) -> ::anyhow::Result<()> {
         SHARED_CHANNEL_SIZE,
     );
 
-    let num_sockets_per_worker =
-        if config.network.use_ipv4 { 1 } else { 0 } + if config.network.use_ipv6 { 1 } else { 0 };
-
-    let priv_dropper = PrivilegeDropper::new(
-        config.privileges.clone(),
-        config.socket_workers * num_sockets_per_worker,
-    );
+    // One participant per socket worker: each waits once, after binding all its listeners
+    let priv_dropper = PrivilegeDropper::new(config.privileges.clone(), config.socket_workers);
 
     let opt_tls_config = if config.network.enable_tls {
         Some(Arc::new(ArcSwap::from_pointee(create_rustls_config(
@@ -82,11 +77,7 @@ pub fn run(config: Config) -> ::anyhow::Result<()> {
         let opt_tls_config = opt_tls_config.clone();
         let request_mesh_builder = request_mesh_builder.clone();
 
-        let mut priv_droppers = Vec::new();
-
-        for _ in 0..num_sockets_per_worker {
-            priv_droppers.push(priv_dropper.clone());
-        }
+        let priv_dropper = priv_dropper.clone();
 
         let handle = Builder::new()
             .name(format!("socket-{:02}", i + 1))
@@ -99,7 +90,7 @@ pub fn run(config: Config) -> ::anyhow::Result<()> {
                         state,
                         opt_tls_config,
                         request_mesh_builder,
-                        priv_droppers,
+                        priv_dropper,
                         server_start_instant,
                         i,
                     ))
